@@ -8,6 +8,7 @@ import (
 	"runtime"
 	"strings"
 	"sync"
+	"sync/atomic"
 	"time"
 
 	"github.com/miekg/dns"
@@ -110,7 +111,7 @@ func (j *concJob) run(start <-chan struct{}, wg *sync.WaitGroup) {
 		mut := append([]byte(nil), out...)
 		bit := (i*7919 + len(out)) % (len(j.packed) * 8)
 		mut[bit/8] ^= 0x80 >> (bit % 8)
-		if v := Protect(func() string { return errClass(s.Verify(j.kp.key, mut)) }); v == "ok:" || v == "panic" {
+		if v := verifyClass(s, j.kp.key, mut); v == "ok:" || v == "panic" {
 			j.fail(i, "C18/Concurrent/tampered", "bit "+Itoa(bit)+" altered: "+v, mut)
 		}
 	}
@@ -183,6 +184,185 @@ func oracleConcurrent(r *Rng, keys []keyPair, tier string) {
 			if j.lastErr == nil && j.lastSig != nil && j.lastT0 == j.lastT1 {
 				emitVerifyResult(j.lastOut, j.lastSig, j.kp, j.kp.key, j.lastVerdict, j.lastT0)
 			}
+		}
+	}
+}
+
+// ---------------------------------------------------------------------------
+// One buffer, many verifiers (round 5). A received message is one []byte; any
+// number of goroutines may verify it at once (several candidate KEYs tried in
+// parallel, two handlers sharing the packet), some sharing the *SIG and *KEY
+// too. Verify only has to read: every call must give the verdict the same call
+// gives when made alone - the matching key accepts, a key of other material and
+// a key of another owner do not - and the octets stay what they were (compared
+// by a reader goroutine all along and at the end). The goroutines of one buffer
+// start together behind a barrier and run with real parallelism (GOMAXPROCS >=
+// 4); all buffers are worked on at once. No oracle looks at time or at the
+// schedule; on a tree where Verify only reads, every schedule gives these
+// results.
+// ---------------------------------------------------------------------------
+
+type sharedBuf struct {
+	kp       keyPair
+	m        *dns.Msg
+	buf      []byte // shared, never written by the harness
+	snap     []byte
+	sig      *dns.SIG // shared by half of the goroutines
+	kOther   dns.KEY
+	kName    dns.KEY
+	rounds   int
+	verdict  string
+	t0, t1   uint32
+	fails    []*sharedFail // one slot per goroutine
+	verifies atomic.Int64
+}
+
+type sharedFail struct{ key, desc string }
+
+func (sb *sharedBuf) verifier(g int, start <-chan struct{}, wg *sync.WaitGroup) {
+	defer wg.Done()
+	f := sb.fails[g]
+	set := func(key, desc string) {
+		if f.key == "" {
+			f.key, f.desc = key, desc
+		}
+	}
+	defer func() {
+		if e := recover(); e != nil {
+			set("C18/Concurrent/panic", "panic while several goroutines verify one buffer")
+		}
+	}()
+	// a receiver of its own: unpacks the shared octets itself
+	sig, key := sb.sig, sb.kp.key
+	if g%2 == 1 {
+		var um dns.Msg
+		if um.Unpack(sb.buf) == nil && len(um.Extra) > 0 {
+			if s, ok := um.Extra[len(um.Extra)-1].(*dns.SIG); ok {
+				sig = s
+			}
+		}
+		kc := *sb.kp.key
+		key = &kc
+	}
+	<-start
+	for i := 0; i < sb.rounds; i++ {
+		var got string
+		switch {
+		case i%16 == 7:
+			if got = Protect(func() string { return errClass(sig.Verify(&sb.kOther, sb.buf)) }); got == "ok:" || got == "panic" {
+				set("C18/Concurrent/shared-buffer-wrong-key", "a key of other material, while other goroutines verify the same buffer: "+got)
+			}
+		case i%16 == 15:
+			if got = Protect(func() string { return errClass(sig.Verify(&sb.kName, sb.buf)) }); got != "err:signer" {
+				set("C18/Concurrent/shared-buffer-wrong-key", "a key of another owner, while other goroutines verify the same buffer: "+got)
+			}
+		default:
+			t0 := uint32(time.Now().Unix())
+			got = Protect(func() string { return errClass(sig.Verify(key, sb.buf)) })
+			t1 := uint32(time.Now().Unix())
+			if g == 0 {
+				sb.verdict, sb.t0, sb.t1 = got, t0, t1
+			}
+			if got != "ok:" {
+				set("C18/Verify/shared-buffer-rejected", "round "+Itoa(i)+": a valid message is rejected ("+got+") while other goroutines verify the same octets")
+			}
+		}
+		sb.verifies.Add(1)
+	}
+}
+
+// reader: compares the shared octets with the copy until the verifiers are done.
+func (sb *sharedBuf) reader(g int, start <-chan struct{}, stop *atomic.Bool, wg *sync.WaitGroup) {
+	defer wg.Done()
+	f := sb.fails[g]
+	<-start
+	for n := 0; !stop.Load(); n++ {
+		if !bytes.Equal(sb.buf, sb.snap) {
+			if f.key == "" {
+				f.key, f.desc = "C18/Verify/input-modified", "the message buffer differs from what was handed to SIG.Verify while Verify calls are running (check number "+Itoa(n)+")"
+			}
+			return
+		}
+		time.Sleep(50 * time.Microsecond)
+	}
+}
+
+func oracleSharedBuffer(r *Rng, keys []keyPair, tier string) {
+	t0 := time.Now()
+	defer func() { st["wall_ms_shared_buffer"] = int(time.Since(t0).Milliseconds()) }()
+	if runtime.GOMAXPROCS(0) < 4 {
+		defer runtime.GOMAXPROCS(runtime.GOMAXPROCS(4))
+	}
+	now := uint32(time.Now().Unix())
+	const verifiers = 6
+	rounds := map[uint8]int{dns.ED25519: 320, dns.ECDSAP256SHA256: 160, dns.ECDSAP384SHA384: 24,
+		dns.RSASHA256: 240, dns.RSASHA1: 240, dns.RSASHA512: 160}
+	var bufs []*sharedBuf
+	for ki, kp := range keys {
+		// sizes: with the hash of the body taking a large and a small share of the call
+		for _, nrec := range [][]int{{240, 0}, {3, 60}, {40, 250}, {0, 240}, {250, 5}, {12, 120}, {120, 2}}[ki%7] {
+			m := genMsg(r, 2)
+			m.Compress = (ki+nrec)%2 == 0
+			for i := 0; i < nrec; i++ {
+				m.Answer = append(m.Answer, &dns.TXT{Hdr: dns.RR_Header{Name: "shared" + Itoa(len(bufs)) + ".example.org.", Rrtype: dns.TypeTXT, Class: 1, Ttl: uint32(i)},
+					Txt: []string{strings.Repeat(string(rune('a'+i%26)), 150+r.Intn(60))}})
+			}
+			s := newSig(kp, now-3000, now+3000)
+			out, err := doSign(s, kp, m)
+			if err != nil {
+				continue // judged by oracleMessage
+			}
+			lone, used, _, _ := receive(out, s, kp.key)
+			if lone != "ok:" {
+				continue // judged by oracleMessage
+			}
+			sb := &sharedBuf{kp: kp, m: m, buf: out, snap: append([]byte(nil), out...), sig: used, rounds: rounds[kp.key.Algorithm]}
+			if sigLen(kp) >= 512 {
+				sb.rounds = min(sb.rounds, 120)
+			}
+			if tier == "thorough" {
+				sb.rounds *= 5
+			}
+			sb.kOther = otherMaterial(kp)
+			sb.kName = *kp.key
+			sb.kName.Hdr.Name = "other." + kp.key.Hdr.Name
+			for g := 0; g <= verifiers; g++ {
+				sb.fails = append(sb.fails, new(sharedFail))
+			}
+			bufs = append(bufs, sb)
+		}
+	}
+	start := make(chan struct{})
+	var wg, rwg sync.WaitGroup
+	var stop atomic.Bool
+	for _, sb := range bufs {
+		for g := 0; g < verifiers; g++ {
+			wg.Add(1)
+			go sb.verifier(g, start, &wg)
+		}
+		rwg.Add(1)
+		go sb.reader(verifiers, start, &stop, &rwg)
+	}
+	close(start)
+	wg.Wait()
+	stop.Store(true)
+	rwg.Wait()
+	for _, sb := range bufs {
+		st["shared_buffer_verifies_checked"] += int(sb.verifies.Load())
+		in := c18in{Signed: Hx(sb.snap), Alg: sb.kp.name, Compress: sb.m.Compress, Len: len(sb.snap), KeyRR: sb.kp.key.String(),
+			Detail: Itoa(verifiers) + " goroutines verify this one buffer " + Itoa(sb.rounds) + " times each, " + Itoa(len(bufs)) + " buffers at once, GOMAXPROCS " + Itoa(runtime.GOMAXPROCS(0))}
+		if !bytes.Equal(sb.buf, sb.snap) {
+			Viol("C18/Verify/input-modified", "after all SIG.Verify calls returned the message buffer differs from what was handed to them", in)
+		}
+		seen := map[string]bool{}
+		for _, f := range sb.fails {
+			if f.key != "" && !seen[f.key] {
+				seen[f.key] = true
+				Viol(f.key, f.desc, in)
+			}
+		}
+		if len(sb.snap) < 12000 && sb.verdict != "" && sb.t0 == sb.t1 {
+			emitVerifyResult(sb.snap, sb.sig, sb.kp, sb.kp.key, sb.verdict, sb.t0)
 		}
 	}
 }
